@@ -415,6 +415,163 @@ func final(x *harness.X, r *rt.Result) {
 	}
 }
 
+// ---- tables registered through the builders -------------------------------------------------
+//
+// ClientBuilder and ServerBuilder register into the same kind of table; AutoReplyPings is one
+// more registration. Every sequence of three registrations over {none, catch-all, "get /ping"
+// predicate, "/x" predicate, AutoReplyPings} on either builder; the peer (built by the other
+// builder) sends get /ping, get /x, get /ping; the handler log and the responses that come
+// back are compared with "earliest registered handler that accepts".
+
+type bstate struct {
+	role  string
+	regs  []string
+	invs  map[string][]int    // request id -> handlers invoked
+	resps map[string][]string // request id -> who answered ("h<i>" or "auto")
+	done  bool
+}
+
+var bAlpha = []string{"none", "all", "ping", "x", "auto"}
+
+func builderBody(role string) func(x *harness.X) {
+	return func(x *harness.X) {
+		lib.Reset()
+		st := &bstate{role: role, invs: map[string][]int{}, resps: map[string][]string{}}
+		x.Vars["bst"] = st
+		for i := 0; i < 3; i++ {
+			st.regs = append(st.regs, bAlpha[rt.Choose(len(bAlpha))])
+		}
+		isPing := func(c *lime.RequestCommand) bool { return c.Method == lime.CommandMethodGet && c.URI.Path() == "/ping" }
+		isX := func(c *lime.RequestCommand) bool { return c.URI.Path() == "/x" }
+		handler := func(i int) lime.RequestCommandHandlerFunc {
+			return func(ctx context.Context, c *lime.RequestCommand, snd lime.Sender) error {
+				st.invs[c.ID] = append(st.invs[c.ID], i)
+				x.Obs("handler %d got %s", i, c.ID)
+				r := c.SuccessResponse()
+				r.SetMetadataKeyValue("by", fmt.Sprintf("h%d", i))
+				return snd.SendResponseCommand(ctx, r)
+			}
+		}
+		onResp := func(ctx context.Context, r *lime.ResponseCommand, snd lime.Sender) error {
+			by := r.Metadata["by"]
+			if by == "" {
+				if _, ok := r.Resource.(*lime.Ping); ok {
+					by = "auto"
+				} else {
+					by = "unknown"
+				}
+			}
+			st.resps[r.ID] = append(st.resps[r.ID], by)
+			x.Obs("response %s by %s", r.ID, by)
+			return nil
+		}
+		addr := lime.InProcessAddr("c20b")
+		sb := lime.NewServerBuilder().ListenInProcess(addr).EnableGuestAuthentication().ChannelBufferSize(1)
+		cb := lime.NewClientBuilder().UseInProcess(addr, 1).GuestAuthentication().ChannelBufferSize(1)
+		var srvChan *lime.ServerChannel
+		sb = sb.Established(func(id string, c *lime.ServerChannel) { srvChan = c })
+		for i, reg := range st.regs {
+			switch {
+			case reg == "all" && role == "client":
+				cb = cb.RequestCommandsHandlerFunc(handler(i))
+			case reg == "all":
+				sb = sb.RequestCommandsHandlerFunc(handler(i))
+			case reg == "ping" && role == "client":
+				cb = cb.RequestCommandHandlerFunc(isPing, handler(i))
+			case reg == "ping":
+				sb = sb.RequestCommandHandlerFunc(isPing, handler(i))
+			case reg == "x" && role == "client":
+				cb = cb.RequestCommandHandlerFunc(isX, handler(i))
+			case reg == "x":
+				sb = sb.RequestCommandHandlerFunc(isX, handler(i))
+			case reg == "auto" && role == "client":
+				cb = cb.AutoReplyPings()
+			case reg == "auto":
+				sb = sb.AutoReplyPings()
+			}
+		}
+		if role == "client" {
+			sb = sb.ResponseCommandsHandlerFunc(onResp)
+		} else {
+			cb = cb.ResponseCommandsHandlerFunc(onResp)
+		}
+		srv := sb.Build()
+		go func() { _ = srv.ListenAndServe() }()
+		rt.Quiesce()
+		client := cb.Build()
+		ctx, cancel := context.WithTimeout(context.Background(), 30*time.Second)
+		defer cancel()
+		if err := client.Establish(ctx); err != nil {
+			x.Failf("setup", "builder client could not establish: %v", err)
+			rt.Stop()
+		}
+		rt.Quiesce()
+		rt.BeginExplore()
+		for _, q := range [][2]string{{"p1", "/ping"}, {"x1", "/x"}, {"p2", "/ping"}} {
+			req := lib.Req(q[0], q[1])
+			var err error
+			if role == "client" {
+				if srvChan == nil {
+					x.Failf("setup", "no server channel")
+					rt.Stop()
+				}
+				err = srvChan.SendRequestCommand(ctx, req)
+			} else {
+				err = client.SendRequestCommand(ctx, req)
+			}
+			if err != nil {
+				x.Obs("send %s failed", q[0])
+			}
+			rt.Quiesce()
+		}
+		rt.EndExplore()
+		st.done = true
+		rt.Stop()
+	}
+}
+
+func builderFinal(x *harness.X, r *rt.Result) {
+	if r.Crash != "" {
+		x.Failf("crash:"+r.CrashSite, "panic: %s", firstLine(r.Crash))
+		return
+	}
+	st, _ := x.Vars["bst"].(*bstate)
+	if st == nil || !st.done {
+		return
+	}
+	hist := fmt.Sprintf("[%s builder, registrations in order %v; %s]", st.role, st.regs, strings.Join(x.Log(), " | "))
+	for _, q := range [][2]string{{"p1", "/ping"}, {"x1", "/x"}, {"p2", "/ping"}} {
+		want := "" // who handles it: "h<i>", "auto" or nobody
+		for i, reg := range st.regs {
+			if reg == "all" || reg == "ping" && q[1] == "/ping" || reg == "x" && q[1] == "/x" {
+				want = fmt.Sprintf("h%d", i)
+			} else if reg == "auto" && q[1] == "/ping" {
+				want = "auto"
+			}
+			if want != "" {
+				break
+			}
+		}
+		var gotInv []string
+		for _, i := range st.invs[q[0]] {
+			gotInv = append(gotInv, fmt.Sprintf("h%d", i))
+		}
+		var wantInv, wantResp []string
+		if strings.HasPrefix(want, "h") {
+			wantInv = []string{want}
+		}
+		if want != "" {
+			wantResp = []string{want}
+		}
+		if strings.Join(gotInv, ",") != strings.Join(wantInv, ",") {
+			x.Failf("builder:wrong-handler:"+st.role, "request %s (%s): handlers invoked %v, the earliest registered that accepts it is %q %s", q[0], q[1], gotInv, want, hist)
+		}
+		if strings.Join(st.resps[q[0]], ",") != strings.Join(wantResp, ",") {
+			x.Failf("builder:wrong-answer:"+st.role, "request %s (%s): answered by %v, the earliest registered that accepts it is %q %s", q[0], q[1], st.resps[q[0]], want, hist)
+		}
+	}
+}
+
 func firstLine(s string) string { return strings.SplitN(s, "\n", 2)[0] }
 
 func main() {
@@ -425,12 +582,14 @@ func main() {
 	harness.Main(harness.Check{
 		Property: "C20",
 		Level:    "model_checking",
-		Rule:     "handler tables (per kind 0..3 handlers x predicate{nil,true,false,id==a} x outcome{ok,error}; mixed tables with <=1 handler per kind) x inbound sequences (length<=3 over kind x id{a,b}) enumerated as data choices; schedules with <= bound deviations inside the dispatch window; distinct outcome = distinct observation log",
+		Rule:     "handler tables (per kind 0..3 handlers x predicate{nil,true,false,id==a} x outcome{ok,error}; mixed tables with <=1 handler per kind) x inbound sequences (length<=3 over kind x id{a,b}) enumerated as data choices; plus tables registered through ClientBuilder and ServerBuilder: every sequence of three registrations over {none, catch-all, get-/ping predicate, /x predicate, AutoReplyPings} with the peer sending get /ping, get /x, get /ping and the responses observed; schedules with <= bound deviations inside the dispatch window; distinct outcome = distinct observation log",
 		Assume:   []string{"in-process transport only (dispatch logic is transport independent)", "sequentially consistent scheduler; code between visible operations is atomic"},
 		Scenarios: []harness.Scenario{
 			mk("server/one-kind/h2/len2", serverBody("one", 2, 2), 0, -1),
 			mk("server/mixed4/len2", serverBody("mixed4", 1, 2), 0, -1),
 			mk("client/one-kind/h2/len2", clientBody("one", 2, 2), 0, -1),
+			{Name: "builders/client", Opt: opt, Quick: 0, Thorough: 0, Body: builderBody("client"), Final: builderFinal},
+			{Name: "builders/server", Opt: opt, Quick: 0, Thorough: 0, Body: builderBody("server"), Final: builderFinal},
 			mk("server/one-kind/h3/len2", serverBody("one", 3, 2), -1, 0),
 			mk("server/one-kind/h2/len3", serverBody("one", 2, 3), -1, 0),
 			mk("server/mixed4/len3", serverBody("mixed4", 1, 3), -1, 0),
